@@ -221,5 +221,37 @@ def run_case(case):
             exp = 2 * pinball(yf, mf.predict(X), q).mean()
             if abs(sf - exp) > 1e-9 * max(1.0, abs(exp)) or abs(si - sf) > 1e-9 * max(1.0, abs(sf)):
                 bad("score != 2 * mean pinball loss", "%s,integer-dtype targets" % qc, "int %r float %r expected %r y=%r" % (si, sf, exp, yi.tolist()))
+    # the same training set / scoring set stored behind other memory layouts and dtypes: same optimality, same score identity
+    from checks.catalog import layouts
+    pair = {"Fortran order": "column of a C-ordered table", "strided window of a larger table": "every second element",
+            "negative strides": "negative stride", "transposed window": "column of a C-ordered table", "read-only": "read-only"}
+    for ys in case["ys"][:1]:
+        y = numpy.array(ys, dtype=numpy.float64) + numpy.array(JIT[:n])
+        for q, wl in ((0.25, None), (0.75, wmenu[1])):
+            w = None if wl is None else numpy.array(wl, dtype=numpy.float64)
+            Ls = lp_optimum(numpy.hstack([X, numpy.ones((n, 1))]), y, q, w, [])
+            tol = n * 1e-4 * (1.0 if w is None else float(w.max())) * 4
+            forms = [(nm, Xl, dict(layouts(y))[pair[nm]], None if w is None else dict(layouts(w))[pair[nm]]) for nm, Xl in layouts(X)[1:]]
+            if (X == numpy.round(X)).all():
+                forms.append(("int64 X", X.astype(numpy.int64), y, w))
+                forms.append(("float32 X", X.astype(numpy.float32), y, w))
+            for nm, Xl, yl, wl_ in forms:
+                cnt += 1
+                cond = "%s,%s,training set stored as %s" % ("q!=0.5", "weights" if w is not None else "no weights",
+                                                           "another dtype" if "X" in nm else "a non-contiguous/read-only array")
+                desc = "d=%d y=%r q=%s weights=%r layout=%s" % (d, ys, q, wl, nm)
+                try:
+                    m = QuantileLinearRegression(quantile=q, max_iter=1000, delta=1e-4).fit(Xl, yl, sample_weight=wl_)
+                    f = numpy.asarray(m.predict(Xl))
+                    sc = float(m.score(Xl, yl, sample_weight=wl_))
+                except Exception as e:
+                    bad("fit raises %s" % type(e).__name__, cond, "%s %s" % (str(e)[:200], desc))
+                    continue
+                L = pinball(y, f, q, w).sum()
+                if L > Ls + tol:
+                    bad("not a pinball-loss minimiser", cond, "loss %r optimum %r (tol %g) %s" % (L, Ls, tol, desc))
+                exp = 2 * pinball(y, f, q).mean() if w is None else 2 * pinball(y, f, q, w).sum() / w.sum()
+                if abs(sc - exp) > 1e-12 * max(1.0, abs(exp)):
+                    bad("score != 2 * mean pinball loss", cond, "score %r expected %r %s" % (sc, exp, desc))
     return {"viol": viol, "nontrivial": any(len(set(v)) > 1 for v in case["ys"]), "states": cnt,
             "transitions": cnt * 8, "outcome": (d, n)}
